@@ -67,6 +67,9 @@ def apply_patch_overlay(patch_path: str) -> Tuple[Optional[Dict[str, str]], str]
     for rel, hunks in files.items():
         path = os.path.join(repo_root(), rel)
         if not os.path.exists(path):
+            if all(not old for _, old, _ in hunks):
+                overlay[rel] = "\n".join(l for _, _, new in hunks for l in new) + "\n"      # a file the patch creates
+                continue
             return None, f"file {rel} missing"
         with open(path, encoding="utf-8") as f:
             lines = f.read().split("\n")
